@@ -1463,6 +1463,18 @@ func sliceToArrayPointer(t_dst, t_src types.Type, x value) value {
 // interface itype.
 // On success it returns "", on failure, an error message.
 func checkInterface(itype *types.Interface, x iface) string {
+	if x.t == errorType {
+		// engine error values implement exactly Error() string
+		for k := 0; k < itype.NumMethods(); k++ {
+			if itype.Method(k).Name() != "Error" {
+				return fmt.Sprintf("interface conversion: error value is not %v: missing method %s", itype, itype.Method(k).Name())
+			}
+		}
+		return ""
+	}
+	if x.t == rtypeType {
+		return ""
+	}
 	if meth, _ := types.MissingMethod(x.t, itype, true); meth != nil {
 		return fmt.Sprintf("interface conversion: %v is not %v: missing method %s",
 			x.t, itype, meth.Name())
